@@ -371,7 +371,9 @@ func runC08Seq(rc *RunCtx) *simkit.Violation {
 			curRepo = ""
 			ks := append([]string{"v", "v1", "x", "é", "r"}, sortedKeys(labels[r])...)
 			pfx := ks[t.Choose(len(ks))]
-			tk, v := doOp(prop, w, cl, "list-prefix", func() (interface{}, error) { return core.ListLabels(r, st, core.WithLabelPrefix(pfx), core.BatchSize(t.Pick(1, 2, 1024))) })
+			tk, v := doOp(prop, w, cl, "list-prefix", func() (interface{}, error) {
+				return core.ListLabels(r, st, core.WithLabelPrefix(pfx), core.BatchSize(t.Pick(1, 2, 1024)))
+			})
 			if v != nil {
 				return v
 			}
